@@ -310,7 +310,8 @@ def FreshIn (rs : List Route) (c c' : Nat) : Prop := c ≤ c' ∧ ∀ g ∈ allG
 mutual
 theorem adaptNode_fresh : ∀ (n : Node) (c : Nat), FreshIn [(adaptNode n c).1] c (adaptNode n c).2
   | .respond st, c => by
-    simp [adaptNode, FreshIn, allGroups, allGroupsRoute, allGroupsHandlers, allGroupsHandler]
+    simp only [adaptNode]
+    split <;> simp [FreshIn, allGroups, allGroupsRoute, allGroupsHandlers, allGroupsHandler]
   | .handle p body, c => by
     have ih := adaptNodes_fresh body c
     simp only [adaptNode]
@@ -429,7 +430,7 @@ def nodesNoHints : List Node → Bool
   | [] => true
   | n :: ns => nodeNoHints n && nodesNoHints ns
 def nodeNoHints : Node → Bool
-  | .respond st => st != 103
+  | .respond st => st != 103 && decide (st < 1000)
   | .handle _ body => nodesNoHints body
 end
 
@@ -465,9 +466,10 @@ theorem adaptNode_sem : ∀ (n : Node) (c g : Nat) (taken : Bool) (k : K) (r : R
       c (adaptNode n c).2 g
       (fun r' => g ≠ 0 → ((evalNode n taken r.path).2 = true ↔ g ∈ r'.groups))
   | .respond st, c, g, taken, k, r, t, hh, hd, hg, h0 => by
-    simp only [nodeNoHints, bne_iff_ne, ne_eq] at hh
-    simp [adaptNode, Node.isHandle, evalNode, Outcome, runRoute, anyMatch, groupDone, markGroup,
-      runHandlers, runHandler, answerStep, Src.resolve, hh]
+    simp only [nodeNoHints, bne_iff_ne, ne_eq, Bool.and_eq_true, decide_eq_true_eq] at hh
+    have hlt : ¬ st ≥ 1000 := by omega
+    simp [adaptNode, Node.isHandle, evalNode, Outcome, runRoute, anyMatch, groupDone,
+      runHandlers, runHandler, answerStep, Src.resolve, hh.1, hlt]
   | .handle q body, c, g, taken, k, r, t, hh, hd, hg, h0 => by
     simp only [nodeNoHints] at hh
     have hfb := adaptNodes_fresh body c
